@@ -222,19 +222,6 @@ Proof.
     + apply Z.eqb_neq in E2. rewrite vget_vset_other; [reflexivity|]. intros ->. apply E2. rewrite Z2Nat.id; lia.
 Qed.
 
-(* "fact form" of the ledger operations: errors and lookups after a legal operation *)
-Lemma construct_fact k x g : l_errs g = [] -> is_live (lget g x) = false ->
-  l_errs (construct k x g) = [] /\ forall id, lget (construct k x g) id = if x =? id then Alive else lget g id.
-Proof. intros E Hn. split; [rewrite errs_construct_fresh; assumption | intros; apply lget_construct]. Qed.
-
-Lemma destroy_fact x g : l_errs g = [] -> is_live (lget g x) = true ->
-  l_errs (destroy x g) = [] /\ forall id, lget (destroy x g) id = if x =? id then Dead else lget g id.
-Proof. intros E Hn. split; [rewrite errs_destroy_live; assumption | intros; apply lget_destroy_live; assumption]. Qed.
-
-Lemma move_from_fact x g : l_errs g = [] -> is_live (lget g x) = true ->
-  l_errs (move_from x g) = [] /\ forall id, lget (move_from x g) id = if x =? id then MovedFrom else lget g id.
-Proof. intros E Hn. split; [rewrite errs_move_from_live; assumption | intros; apply lget_move_from_live; assumption]. Qed.
-
 Lemma slot_neq_tmp i : (slot i =? tmp_slot) = false.
 Proof. unfold slot, tmp_slot. apply Z.eqb_neq. lia. Qed.
 Lemma tmp_neq_slot i : (tmp_slot =? slot i) = false.
